@@ -94,14 +94,16 @@ def call_specs(draw, jsonclass):
         params["alias"] = params[sorted(params)[0]]
     elif alias == 1:
         result = [result, {"again": result}, result]
-    return {"name": name, "kind": kind, "params": params, "result": result}
+    raises = draw(st.sampled_from([None] * 7 + ["TypeError", "ValueError", "KeyError", "AttributeError"]))
+    return {"name": name, "kind": kind, "params": params, "result": result, "raises": raises}
 
 
 @st.composite
 def cases(draw, sockets=False):
     jsonclass = draw(st.booleans())
     style = draw(st.sampled_from(["plain", "plain", "chain", "notify", "batch", "batch", "batch-chain"]))
-    n = draw(st.integers(1, 4)) if style.startswith("batch") else 1
+    # mostly short batches, some beyond ten entries (two-digit positions)
+    n = draw(st.one_of(st.integers(1, 4), st.integers(1, 4), st.integers(1, 4), st.integers(9, 13))) if style.startswith("batch") else 1
     calls = []
     for _ in range(n):
         c = draw(call_specs(jsonclass))
@@ -120,9 +122,12 @@ class Recorder(object):
     def __init__(self):
         self.log = []
 
-    def make(self, name, result):
+    def make(self, name, result, raises=None):
         def target(*args, **kwargs):
             self.log.append((name, list(args), dict(kwargs)))
+            if raises:
+                # fails after its side effect, with the class an argument mismatch also produces or another
+                raise {"TypeError": TypeError, "ValueError": ValueError, "KeyError": KeyError, "AttributeError": AttributeError}[raises]("failed: " + raises)
             return result
         return target
 
@@ -168,7 +173,7 @@ def run_case(case, make_proxy, register, captured):
     prepare(case)
     rec = Recorder()
     for c in case["calls"]:
-        register(c["name"], rec.make(c["name"], c["result"]))
+        register(c["name"], rec.make(c["name"], c["result"], c.get("raises")))
     ccfg = Config(version=case["version"], use_jsonclass=case["jsonclass"])
     history = History()
     proxy = make_proxy(ccfg, history)
@@ -187,16 +192,33 @@ def run_case(case, make_proxy, register, captured):
             if len(results) != len(expected):
                 fail("C01/batch-result", "MultiCall yielded %d results for %d calls" % (len(results), len(expected)))
             for i, c in enumerate(expected):
+                if c.get("raises"):
+                    try:
+                        got = results[i]
+                    except J.ProtocolError:
+                        continue
+                    fail("C01/failure-not-reported", "batch position %d returned %r although the callable raised" % (i, got), {"name": c["name"]})
                 got = results[i]
                 if not gen.strict_eq(got, gen.norm(c["result"])):
                     fail("C01/result", "batch position %d returned %r, expected %r" % (i, got, c["result"]), {"name": c["name"]})
-            listed = list(results)
-            if len(listed) != len(expected) or any(not gen.strict_eq(a, gen.norm(c["result"])) for a, c in zip(listed, expected)):
-                fail("C01/result", "iterating the MultiCall results gave %r" % (listed,))
+            if not any(c.get("raises") for c in expected):
+                listed = list(results)
+                if len(listed) != len(expected) or any(not gen.strict_eq(a, gen.norm(c["result"])) for a, c in zip(listed, expected)):
+                    fail("C01/result", "iterating the MultiCall results gave %r" % (listed,))
         else:
             c = case["calls"][0]
-            got = invoke(proxy._notify if c["notify"] else proxy, c["name"], chain, c["params"])
-            if c["notify"]:
+            if c.get("raises") and not c["notify"]:
+                try:
+                    got = invoke(proxy, c["name"], chain, c["params"])
+                except J.ProtocolError:
+                    got = Violation      # marker: reported as it must be
+                if got is not Violation:
+                    fail("C01/failure-not-reported", "the call returned %r although the callable raised" % (got,), {"name": c["name"]})
+            else:
+                got = invoke(proxy._notify if c["notify"] else proxy, c["name"], chain, c["params"])
+            if c.get("raises") and not c["notify"]:
+                pass
+            elif c["notify"]:
                 if got is not None:
                     fail("C01/notify-result", "notification returned %r" % (got,))
             elif not gen.strict_eq(got, gen.norm(c["result"])):
@@ -229,6 +251,10 @@ def run_case(case, make_proxy, register, captured):
     nt = any(gen.has_nonascii(v) or gen.depth(v) >= 2 or gen.has_falsy(v) for v in vals)
     classes = ["style:" + style, "v%.1f" % case["version"], "jsonclass:%s" % ("on" if case["jsonclass"] else "off")]
     classes += sorted(set("name:" + c["kind"] for c in case["calls"]))
+    if any(c.get("raises") for c in case["calls"]):
+        classes.append("raising-callable")
+    if style.startswith("batch") and len(case["calls"]) >= 9:
+        classes.append("batch>=9")
     if style.startswith("batch"):
         classes.append("multicall:" + ("explicit-config" if case.get("mc_config", True) else "default-config"))
     if not case["jsonclass"] and "__jsonclass__" in repr(vals):
